@@ -18,8 +18,10 @@ REFS = {
     'R*3': ['rxroot'],
     '[S1.v,5]': ['list', ['param', 'S1', 'v'], 5],
     "{'k':S2.v}": ['dict', 'k', ['param', 'S2', 'v']],
+    'skipbind(S2.w)': ['skipbind', 'S2', 'w'],                # raises Skip while S2.w is odd, else w + 1000
 }
-PLAIN_REFS = ['S1.v', 'S1.w', 'S2.v', 'bind(S1.v)', 'bind(S1.v,S2.v)', 'S1.m', 'rx(S1.v)+1', 'R*3']
+SKIP = '<skip>'
+PLAIN_REFS = ['S1.v', 'S1.w', 'S2.v', 'bind(S1.v)', 'bind(S1.v,S2.v)', 'S1.m', 'rx(S1.v)+1', 'R*3', 'skipbind(S2.w)']
 Q_REFS = ['S1.w', 'S2.v', 'bind(S1.v,S2.v)']
 NESTED_REFS = ['[S1.v,5]', "{'k':S2.v}", 'S1.v']
 
@@ -37,19 +39,24 @@ class C08(Harness):
                    'Parameter (nested_refs target); integer values; synchronous references only (async ones are C10)',)
 
     def bounds(self, tier):
-        return {'depth': 3 if tier == 'quick' else 4, 'configs': len(self.configs(tier))}
+        return {'depth': '3 (2 for configurations with two initial links)' if tier == 'quick' else '4 (3)', 'configs': len(self.configs(tier))}
 
     def configs(self, tier):
         out = []
         for init in ([], [['p', 'S1.v']], [['p', 'bind(S1.v,S2.v)'], ['q', 'S1.w']], [['p', 'S1.m'], ['q', 'S1.v']], [['p', 'R*3']],
                      [['n', '[S1.v,5]']], [['n', "{'k':S2.v}"], ['p', 'S1.v']], [['p', 'rx(S1.v)+1'], ['q', 'S2.v']]):
             out.append({'init': init, 'wide': tier == 'thorough'})
+        out.append({'init': [['p', 'S1.v'], ['q', 'S2.v']], 'cascade': True})
+        out.append({'init': [['p', 'skipbind(S2.w)'], ['q', 'S1.w']]})
         out.append({'init': [['b', 'S1.v']], 'bslice': True})
         out.append({'init': [], 'bslice': True})
         return out
 
     def depth(self, tier, cfg):
-        return 3 if tier == 'quick' else 4
+        deep = cfg.get('bslice') or cfg.get('cascade') or len(cfg['init']) <= 1
+        if tier == 'quick':
+            return 3 if deep else 2
+        return 4 if deep else 3
 
     # ------------------------------------------------------------------ world
     def fresh(self, cfg):
@@ -74,13 +81,39 @@ class C08(Harness):
         R = param.rx(7)
         w = dict(param=param, S1=S1, S2=S2, R=R, Src=Src, Tgt=Tgt, stack=[])
         model = {'src': {'S1': {'v': 1, 'w': 2}, 'S2': {'v': 3, 'w': 4}, 'R': 7}, 'link': {'p': None, 'q': None, 'n': None, 'b': None},
-                 'plain': {'p': -1, 'q': -1, 'n': -1, 'b': 5}, 'ctx': [], 'stale': []}
+                 'plain': {'p': -1, 'q': -1, 'n': -1, 'b': 5}, 'ctx': [], 'stale': [], 'held': {'p': -1, 'q': -1, 'n': -1, 'b': 5}}
         kw = {}
         for tp, rn in cfg['init']:
             kw[tp] = self.mkref(w, REFS[rn])
             model['link'][tp] = rn
         w['T'] = Tgt(**kw)
+        if cfg.get('cascade'):
+            # a user watcher on p that overrides q with a plain value (possibly while p is being synced from its source)
+            T = w['T']
+            T.param.watch(lambda e: setattr(T, 'q', 77), 'p')
+        self.settle(cfg, model, first=True)
         return w, model
+
+    def settle(self, cfg, model, first=False):
+        """bring model['held'] up to date: a live link installs its resolved value unless the reference skips or the value is invalid
+        for the target; with the cascade watcher a change of p overrides q with the plain value 77"""
+        for _ in range(3):
+            before_p = model['held']['p']
+            for tp in ('p', 'q', 'n', 'b'):
+                rn = model['link'][tp]
+                if rn is None:
+                    model['held'][tp] = model['plain'][tp]
+                else:
+                    v = self.evalref(model, REFS[rn])
+                    if v is SKIP or (tp == 'b' and not (0 <= v <= 100)):
+                        continue
+                    model['held'][tp] = v
+            if cfg.get('cascade') and not first and model['held']['p'] != before_p:
+                model['link']['q'] = None
+                model['plain']['q'] = 77
+                model['held']['q'] = 77
+                continue
+            break
 
     def mkref(self, w, d):
         param = w['param']
@@ -91,6 +124,12 @@ class C08(Harness):
             return param.bind(lambda a: a + 100, w[d[1]].param[d[2]])
         if k == 'bind2':
             return param.bind(lambda a, b: a * 10 + b, w[d[1][0]].param[d[1][1]], w[d[2][0]].param[d[2][1]])
+        if k == 'skipbind':
+            def f(x):
+                if x % 2:
+                    raise param.Skip()
+                return x + 1000
+            return param.bind(f, w[d[1]].param[d[2]])
         if k == 'method':
             return w[d[1]].m
         if k == 'rxparam':
@@ -112,6 +151,9 @@ class C08(Harness):
             return s[d[1]][d[2]] + 100
         if k == 'bind2':
             return s[d[1][0]][d[1][1]] * 10 + s[d[2][0]][d[2][1]]
+        if k == 'skipbind':
+            x = s[d[1]][d[2]]
+            return SKIP if x % 2 else x + 1000
         if k == 'method':
             return s[d[1]]['w'] * 2
         if k == 'rxparam':
@@ -125,7 +167,7 @@ class C08(Harness):
 
     def deps_of(self, d):
         k = d[0]
-        if k in ('param', 'bind1', 'rxparam'):
+        if k in ('param', 'bind1', 'rxparam', 'skipbind'):
             return {(d[1], d[2])}
         if k == 'bind2':
             return {(d[1][0], d[1][1]), (d[2][0], d[2][1])}
@@ -167,9 +209,9 @@ class C08(Harness):
         ops.append(['plain', 'n', 51])
         s = model['src']
         ops += [['src', 'S1', 'v', s['S1']['v'] + 1], ['src', 'S1', 'w', s['S1']['w'] + 1], ['src', 'S2', 'v', s['S2']['v'] + 1],
-                ['root', s['R'] + 1], ['src', 'S1', 'v', s['S1']['v']]]
+                ['root', s['R'] + 1], ['src', 'S1', 'v', s['S1']['v']], ['src', 'S2', 'w', s['S2']['w'] + 1]]
         if len(model['ctx']) < 1:
-            ops += [['open_update', 'p', 60], ['open_update', 'q', 61], ['open_update_pos', 'p', 62]]
+            ops += [['open_update', 'p', 60], ['open_update', 'q', 61], ['open_update_pos', 'p', 62], ['open_update_mix', 63, 64]]
         else:
             ops.append(['close'])
         ops.append(['update2', 70, 71])
@@ -206,6 +248,14 @@ class C08(Harness):
         elif k == 'root':
             w['R'].rx.value = op[1]
             model['src']['R'] = op[1]
+        elif k == 'open_update_mix':
+            cm = T.param.update({'p': op[1]}, q=op[2])       # positional mapping and keyword in one call
+            cm.__enter__()
+            w['stack'].append(cm)
+            for tp, v in (('p', op[1]), ('q', op[2])):
+                model['ctx'].append((tp, model['link'][tp], model['plain'][tp]))
+                model['link'][tp] = None
+                model['plain'][tp] = v
         elif k in ('open_update', 'open_update_pos'):
             cm = T.param.update(**{op[1]: op[2]}) if k == 'open_update' else T.param.update({op[1]: op[2]})
             cm.__enter__()
@@ -215,10 +265,15 @@ class C08(Harness):
             model['plain'][op[1]] = op[2]
         elif k == 'close':
             w['stack'].pop().__exit__(None, None, None)
-            tp, link, plain = model['ctx'].pop()
-            model['link'][tp] = link
-            if link is None:
-                model['plain'][tp] = plain
+            frames = [model['ctx'].pop()]
+            if model['ctx'] and len(w['stack']) == 0:
+                frames.append(model['ctx'].pop())        # an update over two names is one context
+            for tp, link, plain in frames:
+                model['link'][tp] = link
+                if link is None:
+                    model['plain'][tp] = plain
+                else:
+                    model['plain'][tp] = plain
         elif k == 'update2':
             T.param.update(p=op[1], q=op[2])
             for tp, v in (('p', op[1]), ('q', op[2])):
@@ -238,6 +293,8 @@ class C08(Harness):
                 exp = self.evalref(model, REFS[rn])
                 if tp == 'b' and not (0 <= exp <= 100):
                     continue
+                if exp is SKIP:
+                    exp = model['held'][tp]        # a skipping reference leaves what the parameter held
                 if got != exp or type(got) is not type(exp):
                     vs.append(V('linked-value', 'history %r: %s is linked to %s whose resolved value is %r, but holds %r' % (history, tp, rn, exp, got),
                                 ref=REFS[rn][0], target=tp, **key))
@@ -275,6 +332,7 @@ class C08(Harness):
             last = i == len(history) - 1
             try:
                 self.apply(w, model, op)
+                self.settle(cfg, model)
             except Exception as e:
                 if last:
                     vs.append(V('op-raises', 'history %r: %r raised %r' % (history, op, e), op=op[0], exc=type(e).__name__))
